@@ -170,6 +170,13 @@ pub enum AppOp {
     Write(#[serde(with = "hex")] Vec<u8>),
     /// start a read(), poll it at most `polls` times, drop it if still pending (async only)
     ReadCancel { polls: u32 },
+    /// start a write(packet), poll it at most `polls` times, drop it if still pending (async
+    /// only; the blocking executor runs it to completion)
+    WriteCancel {
+        #[serde(with = "hex")]
+        frame: Vec<u8>,
+        polls: u32,
+    },
     /// let simulated time pass with no operation in flight (async only)
     Advance(u64),
     /// keep calling read() until Disconnected / fatal, at most `max` times
